@@ -223,7 +223,17 @@ def part_literals(sh, res):
                 ]
                 cases.append(('select_first', {'kind': 'select', 'items': [('lit', value), ('lit', 'tail'), F('a', 1)], 'where': ('cmp', '!=', F('a', 2), ('lit', 'zzz')), 'join': None, 'order': None, 'distinct': None, 'top': None, 'group': None},
                               "SELECT %s, 'tail', a1 WHERE a2 != 'zzz'" % lt))
+                if hdr and value and value != 'val' and not any(toks[i] == 'a.zz' for i in tup):
+                    # the literal names a column: a[<literal>] in the select list and in EXCEPT (header = [literal content, 'val'])
+                    style = 'sq' if quote == "'" else 'dq'
+                    S0 = {'where': None, 'join': None, 'order': None, 'distinct': None, 'top': None, 'group': None}
+                    cases.append(('column_name', dict(S0, kind='select', items=[('named', 'a', value, style), ('NR',)]), 'SELECT a[%s], NR' % refql.lit_text(value, quote)))
+                    cases.append(('except_name', dict(S0, kind='select', items=[('star', None)], except_cols=[('named', 'a', value, style)]), 'SELECT * EXCEPT a[%s]' % refql.lit_text(value, quote)))
                 for pos, q, text in cases:
+                    if pos in ('column_name', 'except_name'):
+                        an = [value, 'val']
+                    elif hdr:
+                        an = ['name', 'val']
                     if not (hdr and any(toks[i] == 'a.zz' for i in tup)) and '${' not in value and quote == "'":
                         sh.setdefault('_jscases', []).append((q, A, None, an, None))
                     exp = refql.evaluate(q, A, None, an, None)
